@@ -150,6 +150,9 @@ def s_variation(env):
         ("validA", "LocalBioFilter.valid", (fA, env["probe"]), {}),
         ("validB", "LocalBioFilter.valid", (fB, env["probe"]), {}),
         ("validA-all", "LocalBioFilter.valid", (fA, env["probe"]), {"only_last": False}),
+        ("RECONF-FILTER-A", None, (), {}),
+        ("findA-reconf", "find_vertices", (k, fA), {}),
+        ("validA-reconf", "LocalBioFilter.valid", (fA, env["probe"]), {}),
         ("gen-k", "connect_coding_graph", (k, env["mask"], 1), {}),
         ("gen-k3", "connect_coding_graph", (3, env["mask3"], 1), {}),
         ("gen-k-again", "connect_coding_graph", (k, env["mask"], 1), {}),
